@@ -13,6 +13,7 @@ import (
 	"fmt"
 	"math/rand/v2"
 	"sort"
+	"strings"
 	"sync"
 	"sync/atomic"
 	"testing/synctest"
@@ -91,8 +92,14 @@ func (c countingFactory) New(ctx context.Context) gossip.Task {
 	c.news[key]++
 	c.mu.Unlock()
 	return func() error {
+		// like the real task factories, look at the batch when the task RUNS:
+		// it must still be the batch the task was created for
+		now := c.agent + "/" + batchKey(b)
 		c.mu.Lock()
-		c.runs[key]++
+		c.runs[now]++
+		if now != key {
+			c.news["WRONG-BATCH "+key+" ran on "+now]++
+		}
 		c.mu.Unlock()
 		return nil
 	}
@@ -439,6 +446,9 @@ func execC18(r *Run) {
 	}
 	sort.Strings(keys)
 	for _, k := range keys {
+		if strings.HasPrefix(k, "WRONG-BATCH ") {
+			r.Fail("at-most-once", "a task created for one batch ran on another: %s (so one batch is processed twice and one never)", strings.TrimPrefix(k, "WRONG-BATCH "))
+		}
 		if news[k] > 1 && r.Cfg("fix_cache") != 0 {
 			r.Fail("at-most-once", "tasks for batch %s were created %d times", k, news[k])
 		}
